@@ -229,6 +229,19 @@ def check_enc(case):
         if not same_key(k, k2):
             V.append((f'encrypted export/import does not yield the same key [{cn}]',
                       f'secret={secret.hex()} passphrase={pw!r} (given as {form}) salt={salt.hex()} exported={exported}'))
+    # the SAME Key object is exported again under another passphrase (and another salt): the second export must open
+    # with the second passphrase - nothing of the first export may be remembered
+    if pw:
+        pw2 = 'second passphrase' if pw != 'second passphrase' else 'third'
+        try:
+            with patched_salt(bytes(reversed(salt))):
+                exported2 = k.secret_key(pw2)
+            k3 = Key.from_encoded_key(exported2, passphrase=pw2)
+            if not same_key(k, k3):
+                V.append((f'second encrypted export of the same Key object does not yield the same key [{cn}]', f'{exported2}'))
+        except Exception as e:  # noqa
+            V.append((f'second encrypted export of the same Key object (other passphrase) cannot be imported [{cn}]',
+                      f'secret={secret.hex()} first passphrase={pw!r} second={pw2!r}: {type(e).__name__} {e}'))
     return V, lab
 
 
